@@ -58,6 +58,8 @@ Definition view (b : builder) : string -> option value := getattr b.
 Definition NOT_IMPLEMENTED : Z := (-1)%Z.          (* optimize_traj *)
 Definition NO_CONVERGENCE : Z := (-2)%Z.           (* RuntimeError of _iterate_mass *)
 
+Inductive op := Fly (m : mission) | SetOptions (o : options).
+
 Section Fly.
   (* ---- oracles ---- *)
   (* the context constructor: the fixed information of the flight (a dictionary of attributes) or a reason *)
@@ -67,6 +69,9 @@ Section Fly.
   Variable small : options -> Z -> bool.                                  (* abs(residual) < mass_iter_reltol *)
   Variable adjust : (string -> option value) -> Z -> Z * Z.               (* corrected (starting mass, fuel load) *)
   Variable guarded : bool.                                                (* finally deletes ctx only if present *)
+  (* a starting mass handed in by the caller: true = calc_starting_mass still runs for the fuel load (after
+     fixes/FC17a.diff), false = it is skipped and total_fuel_mass stays None (the code before that fix) *)
+  Variable gfix : bool.
 
   (* Builder._fly_iteration: records current_mass on the builder (the context has no such attribute) *)
   Definition fly_iteration (b : builder) : builder * ((Z * Z) + Z) :=
@@ -88,15 +93,20 @@ Section Fly.
         end
     end.
 
+  (* starting mass and fuel load, after the context has been stored *)
+  Definition prepare (b : builder) : builder :=
+    match getattr b "starting_mass" with
+    | Some None =>
+        let '(sm, tf) := calc (b_opts b) (view b) in
+        setattr (setattr b "total_fuel_mass" (Some tf)) "starting_mass" (Some sm)
+    | Some (Some _) =>
+        if gfix then let '(_, tf) := calc (b_opts b) (view b) in setattr b "total_fuel_mass" (Some tf) else b
+    | None => b
+    end.
+
   (* the body of the try block, after the context has been stored *)
   Definition body (b : builder) : builder * outcome :=
-    let b1 :=
-      match getattr b "starting_mass" with
-      | Some None =>
-          let '(sm, tf) := calc (b_opts b) (view b) in
-          setattr (setattr b "total_fuel_mass" (Some tf)) "starting_mass" (Some sm)
-      | _ => b
-      end in
+    let b1 := prepare b in
     if o_optimize (b_opts b1) then (b1, Raised (Reason NOT_IMPLEMENTED))
     else
       match fly_iteration b1 with
@@ -135,6 +145,15 @@ Section Fly.
     match ms with
     | [] => (b, [])
     | m :: r => let '(b1, o) := fly b m in let '(b2, os) := run b1 r in (b2, o :: os)
+    end.
+
+  (* between flights the caller may also replace the builder's options (`builder.options = ...`) *)
+  Definition set_options (b : builder) (o : options) : builder := mkb o (b_own b) (b_ctx b).
+  Fixpoint run_ops (b : builder) (ops : list op) : builder * list outcome :=
+    match ops with
+    | [] => (b, [])
+    | Fly m :: r => let '(b1, o) := fly b m in let '(b2, os) := run_ops b1 r in (b2, o :: os)
+    | SetOptions o :: r => run_ops (set_options b o) r
     end.
 End Fly.
 
@@ -179,9 +198,12 @@ Definition show (o : outcome) : shown :=
   | Raised AttrCtx => SAttrCtx
   end.
 
-(* a history on one builder: outcomes, whether the context is gone afterwards, the leftover own attributes *)
-Definition run_history (guarded : bool) (o : options) (ss : list script) (ids : list Z) (given : list value)
+(* a history on one builder: before flight i the options are set to os[i]; outcomes, whether the context is gone
+   afterwards, the leftover own attributes *)
+Definition run_history (guarded gfix : bool) (os : list options) (ss : list script) (ids : list Z) (given : list value)
   : list shown * bool * list string :=
   let ms := map (fun p => mkmission (fst p) (snd p)) (combine ids given) in
-  let '(b, outs) := run (replay_ctor ss) replay_calc (replay_iter ss) replay_small replay_adjust guarded (fresh o) ms in
+  let ops := flat_map (fun p => [SetOptions (fst p); Fly (snd p)]) (combine os ms) in
+  let '(b, outs) := run_ops (replay_ctor ss) replay_calc (replay_iter ss) replay_small replay_adjust guarded gfix
+                            (fresh (nth 0 os (mkopts false false 0 0))) ops in
   (map show outs, match b_ctx b with None => true | Some _ => false end, map fst (b_own b)).
